@@ -3,6 +3,7 @@ completeness of mutators (transitive field effects), counts from maintained data
 from ..cfg import Body
 from ..report import where
 from .. import storemodel as sm
+from .. import storerules as sr
 
 LEVEL = "other"
 GS = sm.GS
@@ -15,6 +16,12 @@ def run(ctx, F, cg):
     ctx.rule("R06d", "delete_node's write set covers every node representation the node creators write")
     ctx.rule("R06e", "labels of stored nodes are changed only through the store (label_index maintained): no non-test function combines get_node_mut with Node::add_label / remove_label")
     ctx.rule("R06f", "every public &mut self method of GraphStore that writes a read-view field directly is classified in the mutator table")
+    ctx.rule("R06g", "an entry leaves an adjacency list only by relationship id: every selective removal on a Vec<(NodeId, EdgeId)> in the store is a retain whose predicate is `entry id != captured id` (positional removal cannot tell parallel relationships apart)")
+    ctx.rule("R06h", "no relationship dangles from a missing node: in every relationship creator two has_node tests (one per endpoint) dominate the adjacency writes and their absent side returns Err")
+    ctx.rule("R06i", "a read view of the adjacency reads whole (frozen tier, write buffer) pairs of one direction; single-tier accessors are a reviewed list and their callers merge both tiers")
+    sr.removal_by_id(ctx, F, cg, "R06g")
+    sr.endpoints_checked(ctx, F, cg, "R06h")
+    sr.direction_coherence(ctx, F, cg, "R06i")
     # ---- R06f ------------------------------------------------------------------------------------------
     un = sm.unclassified_mutators(F, cg)
     for name, w, r in un:
@@ -102,4 +109,4 @@ def run(ctx, F, cg):
         ctx.ok("R06e", "no-raw-label-mutation", "none of %d get_node_mut callers changes labels on the raw handle" % len(users))
     return ("Decided: representation completeness of the deleting mutators against what creators/compaction write (transitive field effects over "
             "the call graph), that counts only read maintained representations, creator completeness, delete cascade, and that label sets of stored "
-            "nodes change only through index-maintaining store methods. Not decided: sortedness of adjacency lists, degree arithmetic, edges_between logic.")
+            "nodes change only through index-maintaining store methods. removal from adjacency lists is by relationship id, creators test both endpoints, and read views read complete tier pairs of one direction. Not decided: sortedness of adjacency lists, degree arithmetic, edges_between logic.")
